@@ -230,12 +230,16 @@ type c07FormPl struct {
 // one random placement per form; all three placements per form for the fixed regression files
 func c07FormPlacements(r *rand.Rand, forms []string, all bool) (out []c07FormPl) {
 	for _, f := range forms {
+		npl := 3
+		if strings.HasPrefix(f, "file/") {
+			npl = 4 // + inside text excluded by ignore comments
+		}
 		if all {
-			for pl := 0; pl < 3; pl++ {
+			for pl := 0; pl < npl; pl++ {
 				out = append(out, c07FormPl{f, pl})
 			}
 		} else {
-			out = append(out, c07FormPl{f, r.Intn(3)})
+			out = append(out, c07FormPl{f, r.Intn(npl)})
 		}
 	}
 	return out
@@ -400,6 +404,18 @@ func c07Oracle(r *rand.Rand, rep *runReport, nfiles int) {
 						t.Placement = "end-of-file"
 						t.Inserted = len(lines) + 1
 						lines = append(lines, text)
+					case fileLevel && pl == 3:
+						// on a line the reader blanks: between ignore/begin and ignore/end, or right after ignore/next-line. The
+						// current reader still collects file-level comments there (C10 lists "control comments inside excluded text
+						// are not inert" as its finding; C07's model and theorem follow the code: they count)
+						t.Inserted = 0
+						if r.Intn(2) == 0 {
+							t.Placement = "end-of-file-inside-ignore-block"
+							lines = append(lines, "# pint ignore/begin", text, "# pint ignore/end")
+						} else {
+							t.Placement = "end-of-file-after-ignore-next-line"
+							lines = append(lines, "# pint ignore/next-line", text)
+						}
 					case pl == 0:
 						t.Placement = "line-above-rule"
 						t.Inserted = ru.First
